@@ -95,4 +95,54 @@ theorem parseAmount_toks (a : Amount) (h : a.wf = true) (ln o pre : Nat) (x : To
     simp [Amount.expected, Amount.signText, Amount.print, Amount.comText, hneg, hcom]
   all_goals omega
 
+theorem nlP_ty (ln o pre : Nat) : (nlP ln o pre).ty = .newline := rfl
+theorem nlP_pos (ln o pre : Nat) : (nlP ln o pre).pos = ⟨ln, 1 + pre, o + pre⟩ := rfl
+
+/-- **`parsePosting` on the tokens of a posting line**; it stops on the line's Newline token. -/
+theorem parsePosting_toks (p : Posting) (hp : p.wf = true) (ln o : Nat) (R : List Token)
+    (errs : List ParseError) (dy : Int) :
+    parsePosting (E cls) (stOf (p.toks ln o ++ R) errs dy) =
+      (some (p.expected ln o), ⟨R, nlP ln o p.print.length, errs, dy⟩) := by
+  simp only [Posting.wf, Bool.and_eq_true] at hp
+  obtain ⟨_, hamt⟩ := hp
+  cases hamtv : p.amount with
+  | none =>
+    have e : p.toks ln o ++ R = tokP .indent [0x20, 0x20, 0x20, 0x20] ln o 0 :: tokP .account p.acct ln o 4 ::
+        nlP ln o p.print.length :: R := by simp [Posting.toks, hamtv]
+    rw [e]
+    unfold parsePosting
+    simp only [stOf_cons, tokP, ne_eq, not_true_eq_false, if_false, advance_cons, reduceCtorEq, or_self]
+    unfold postingOpen
+    simp only [reduceCtorEq, if_false, ne_eq, not_true_eq_false, advance_cons]
+    unfold postingTail postingClosing postingAmount postingCost postingAssertion lineComment
+    simp only [reduceCtorEq, if_false, or_self, nlP_ty, toRange, nlP_pos]
+    simp [Posting.expected, hamtv]
+  | some a =>
+    rw [hamtv] at hamt
+    have hpa := parseAmount_toks cls a hamt ln o (4 + p.acct.length + 2) (nlP ln o p.print.length) R errs dy rfl
+      (by simp only [nlP_pos, Posting.print, Posting.amtText, hamtv, List.length_append, List.length_cons,
+            List.length_nil]
+          simp only [Pos.mk.injEq, true_and]; omega)
+    have hty : ∃ t ts, a.toks ln o (4 + p.acct.length + 2) = t :: ts ∧
+        (t.ty = .commodity ∨ t.ty = .number ∨ t.ty = .sign) := by
+      cases hneg : a.neg
+      · exact ⟨_, _, by simp only [Amount.toks, hneg]; rfl, Or.inr (Or.inl rfl)⟩
+      · exact ⟨_, _, by simp only [Amount.toks, hneg]; rfl, Or.inr (Or.inr rfl)⟩
+    obtain ⟨t, ts, hts, hty⟩ := hty
+    have hst : stOf (a.toks ln o (4 + p.acct.length + 2) ++ nlP ln o p.print.length :: R) errs dy =
+        ⟨ts ++ nlP ln o p.print.length :: R, t, errs, dy⟩ := by rw [hts]; rfl
+    rw [hst] at hpa
+    have e : p.toks ln o ++ R = tokP .indent [0x20, 0x20, 0x20, 0x20] ln o 0 :: tokP .account p.acct ln o 4 ::
+        t :: (ts ++ nlP ln o p.print.length :: R) := by simp [Posting.toks, hamtv, hts]
+    rw [e]
+    unfold parsePosting
+    simp only [stOf_cons, tokP, ne_eq, not_true_eq_false, if_false, advance_cons, reduceCtorEq, or_self]
+    unfold postingOpen
+    simp only [reduceCtorEq, if_false, ne_eq, not_true_eq_false, advance_cons]
+    unfold postingTail postingClosing postingAmount postingCost postingAssertion lineComment
+    simp only [reduceCtorEq, if_false, hty, if_true, hpa, nlP_ty, or_self, toRange, nlP_pos]
+    simp [Posting.expected, hamtv]
+    rw [show 1 + (4 + p.acct.length + 2) = 5 + p.acct.length + 2 by omega,
+      show o + (4 + p.acct.length + 2) = o + 4 + p.acct.length + 2 by omega]
+
 end HL.GCore
